@@ -513,12 +513,18 @@ ICall == /\ I.i = "call"
                  /\ out' = Append(out, [j \in 1..I.n |-> Deref(Args(I.n)[j], heap, 6)])
                  /\ frames' = Adv(Append(Below(I.n), VNull))
                  /\ UNCHANGED <<syms, depth, heap, exc, nact>>
-            ELSE IF Lookup(I.f) > 0 \/ I.f \notin FuncNames THEN
-                 (IF Lookup(I.f) > 0 \/ I.f \in Globals \/ I.f \in ClassNames THEN FaultA("notfunc") ELSE Fault("undefined"))
-                 /\ UNCHANGED <<frames, syms, depth, out, nact>>
-            ELSE LET fn == prog.funcs[FuncIdx(I.f)] IN
-                 IF Len(fn.params) # I.n THEN FaultA("arity") /\ UNCHANGED <<frames, syms, depth, out, nact>>
-                 ELSE Enter(fn, <<FuncIdx(I.f)>>, VNull, Args(I.n), Below(I.n), I.y) /\ UNCHANGED <<heap, exc, out>>
+            \* the name is resolved WHEN THE CALL EXECUTES: a variable / input that holds a method value (a method passed as an
+            \* argument, stored in a property, bound by 令) is called through its current value
+            ELSE LET j == Lookup(I.f)
+                     viaVar == j > 0 /\ syms[j].val.t = "func"
+                     target == IF viaVar THEN syms[j].val.v ELSE I.f
+                 IN
+                 IF (j > 0 /\ ~viaVar) \/ target \notin FuncNames THEN
+                      (IF j > 0 \/ I.f \in Globals \/ I.f \in ClassNames THEN FaultA("notfunc") ELSE Fault("undefined"))
+                      /\ UNCHANGED <<frames, syms, depth, out, nact>>
+                 ELSE LET fn == prog.funcs[FuncIdx(target)] IN
+                      IF Len(fn.params) # I.n THEN FaultA("arity") /\ UNCHANGED <<frames, syms, depth, out, nact>>
+                      ELSE Enter(fn, <<FuncIdx(target)>>, VNull, Args(I.n), Below(I.n), I.y) /\ UNCHANGED <<heap, exc, out>>
          /\ UNCHANGED <<prog, tr, res>>
 
 \* built-in methods of lists and dictionaries (the subset the program families use)
